@@ -149,7 +149,10 @@ def run(ctx):
                     ctx.ok(rule, key, "values other than %s lead only to Err" % list(c[2]), loc="%s:%s" % (f.file, e.line))
                 else:
                     ctx.bad(rule, key, "%s: a wire-controlled switch has a default arm that does not refuse (leads to %s)" % (f.id, sorted(kinds)), loc="%s:%s" % (f.file, e.line))
-    ctx.floor(rule, 3)
+    # the same clause decided per tagged decoder (a `match` on literals or comparisons on the tag), shared with C07: every byte
+    # value outside the tag table reaches only Err
+    from rules import c07
+    c07.tag_rules(ctx, rule, floor=3, refusal_only=True)
 
     # ---------------- narrowing casts of wire values
     rule = "R-C08.N"
